@@ -681,6 +681,13 @@ func vC10Shape(template string, pad int, binary bool, noroom bool) (toks []strin
 			padLen = 1
 		}
 	}
+	if n := strings.Count(template, "$"); n > 0 && padLen == 0 {
+		// an unpadded document is sent with its placeholders substituted (session ids, the server's URL): a
+		// size this close to the limit could end up on the other side of it -- not classifiable here
+		if (size <= maxMessageSize && size+512*n > maxMessageSize) || (size > maxMessageSize && size-16*n <= maxMessageSize) {
+			return nil, false
+		}
+	}
 	s.add("size", strconv.Itoa(size))
 	if binary {
 		s.add("frame", "bin")
